@@ -63,9 +63,13 @@ def realDecl (ops : List Op) (name : String) (ns : Ns) : Option Val :=
 def specLookup (ops : List Op) (ns : Ns) (name : String) : Option (Ns × Val) :=
   innermost (realDecl ops name) ns
 
+/-- a real declaration in a namespace that lies inside `limit` -/
+def realDeclIn (ops : List Op) (name : String) (limit : Ns) (p : Ns) : Option Val :=
+  if limit ≠ [] ∧ limit <+: p then realDecl ops name p else none
+
 /-- name resolution that does not leave the namespace `limit` -/
 def specLookupLimit (ops : List Op) (ns : Ns) (name : String) (limit : Ns) : Option (Ns × Val) :=
-  innermost (fun p => if limit ≠ [] ∧ limit <+: p then realDecl ops name p else none) ns
+  innermost (realDeclIn ops name limit) ns
 
 /-- the enclosing-scope view of map `k` from `ns`, by name -/
 def specPathGet (ops : List Op) (ns : Ns) (k : Kind) (name : String) : Option Val :=
